@@ -2,7 +2,7 @@
    listing, the names a mode lists against the documented step lists, the
    two-pass order of the configured regress tests, resolvability of every
    listed name. *)
-From Robsd Require Import Conf.SchedDefs Conf.SchedSpec Conf.ConfTie Conf.ConfValue.
+From Robsd Require Import Conf.SchedDefs Conf.SchedSpec Conf.ConfOracle Conf.ConfTie Conf.ConfValue.
 From RobsdGen Require Import Gen_Conf.
 Local Open Scope N_scope.
 
